@@ -524,6 +524,9 @@ def _gen_pdfs():
             "gen/aes256r5-empty.pdf": pdfw.encrypt_pdf(base, user_password="", owner_password="o", algorithm="AES-256-R5"),
             "gen/rc4-empty.pdf": pdfw.encrypt_pdf(base, user_password="", owner_password="o", algorithm="RC4-128"),
             "gen/aes128-pw.pdf": pdfw.encrypt_pdf(base, user_password="pw", owner_password="o", algorithm="AES-128"),
+            # split crypt filters: streams in clear (/StmF /Identity), strings AES-encrypted (/StrF): the document needs the AES provider although its streams do not
+            "gen/aes128-strings.pdf": pdfw.encrypt_pdf(pdfw.write_pdf([{"lines": ["first line ZB00001", "second line ZB00002"]}], info={"Title": "strings only ZB00004", "Author": "A ZB00005"}),
+                                                       user_password="", owner_password="o", algorithm="AES-128", strings_only=True),
             "gen/plain.pdf": base,
             # a text-positioning operator with string operands: page text extraction raises in every attempt (the restore-on-error path of the char-map patch)
             "gen/bad-operands.pdf": base.replace(b"72 760 Td", b"(a)(b) Td", 1)}
@@ -615,7 +618,7 @@ def build_pool() -> dict[str, bytes]:
     return pool
 
 
-PAIRS = [("gen/cid-a.pdf", "gen/cid-b.pdf"), ("gen/bad-operands.pdf", "gen/cid-a.pdf"), ("gen/aes256r5-empty.pdf", "gen/aes128-empty.pdf"), ("gen/cid-c.pdf", "gen/cid-a.pdf"), ("gen/comments.pptx", "gen/plain.pptx"),
+PAIRS = [("gen/cid-a.pdf", "gen/cid-b.pdf"), ("gen/aes128-empty.pdf", "gen/aes128-strings.pdf"), ("gen/aes128-strings.pdf", "gen/aes256r5-empty.pdf"), ("gen/bad-operands.pdf", "gen/cid-a.pdf"), ("gen/aes256r5-empty.pdf", "gen/aes128-empty.pdf"), ("gen/cid-c.pdf", "gen/cid-a.pdf"), ("gen/comments.pptx", "gen/plain.pptx"),
          ("gen/comments.docx", "gen/plain.docx"), ("modern_ms/pptx_table.pptx", "gen/plain.pptx"), ("open_office/slide_with_notes.odp", "gen/plain.odp"), ("open_office/headings.odt", "gen/plain.odt"), ("gen/macosx-report.zip", "gen/notes-report.zip"), ("gen/hidden-dir.zip", "gen/visible-dir.zip"),
          ("archives/test_archive.zip", "gen/notes-report.zip"), ("gen/nometa-a.odt", "gen/nopath-nometa-b.odt"), ("gen/nometa-a.odp", "gen/nopath-nometa-b.odp"), ("gen/nocore-a.pptx", "gen/nopath-nocore-b.pptx"), ("gen/samesize-a.docx", "gen/samesize-b.docx"), ("gen/samesize-b.docx", "gen/samesize-c.docx"), ("gen/samesize-a.epub", "gen/samesize-b.epub"), ("gen/samesize-a.odt", "gen/samesize-b.odt"), ("gen/nocore-a.docx", "gen/nopath-nocore-b.docx"),
          ("gen/plain.docx", "gen/nopath-plain.docx"), ("gen/plain.pptx", "gen/nopath-plain.pptx")]
